@@ -243,6 +243,10 @@ class Parser:
 
             compiled_examples = {}
             self.clear_transient = False
+            # Examples must stop at their error. Error recovery would continue
+            # past it and the error state would never be seen.
+            error_recovery = self.error_recovery
+            self.error_recovery = False
             for example in examples:
                 try:
                     self.parse(example["example"])
@@ -261,6 +265,7 @@ class Parser:
                     for state in states:
                         key = hint_key(state, lookaheads)
                         compiled_examples[key] = example["hint"]
+            self.error_recovery = error_recovery
             self.clear_transient = True
 
             return compiled_examples
